@@ -125,6 +125,14 @@ impl<'a> Gen<'a> {
     pub fn new(rng: &'a mut Rng, prof: Profile) -> Self {
         Gen { rng, prof, sigs: vec![], globals: vec![], counter: 0 }
     }
+    /// a fresh name, or (sometimes) the name of a visible integer variable, which is then shadowed
+    fn fresh_or_shadow(&mut self, cx: &Ctx, p: &str) -> String {
+        let ints = cx.of_ty(Ty::Int);
+        if !ints.is_empty() && self.rng.below(100) < 25 {
+            return self.rng.pick(&ints).name.clone();
+        }
+        self.fresh(p)
+    }
     fn fresh(&mut self, p: &str) -> String {
         self.counter += 1;
         format!("{p}{}", self.counter)
@@ -214,7 +222,14 @@ impl<'a> Gen<'a> {
                     cs.push(self.expr(cx, Ty::Int, d));
                     block(cs)
                 }
-                13 if self.prof.natives => native("id1", vec![self.expr(cx, Ty::Int, d)]),
+                13 if self.prof.natives => {
+                    if self.w(4) {
+                        // a native function value called through DynamicCall
+                        dyncall(named("NativeFunction", "id1", vec![]), vec![self.expr(cx, Ty::Int, d)])
+                    } else {
+                        native("id1", vec![self.expr(cx, Ty::Int, d)])
+                    }
+                }
                 _ => card("Add", vec![self.expr(cx, Ty::Int, d), self.expr(cx, Ty::Int, d)]),
             },
             Ty::Real => match self.rng.below(6) {
@@ -317,7 +332,15 @@ impl<'a> Gen<'a> {
 
     /// Closure card with n integer parameters returning an integer; captures the visible variables
     fn closure_lit(&mut self, cx: &Ctx, n: usize, d: usize) -> C {
-        let params: Vec<Var> = (0..n).map(|_| Var { name: self.fresh("p"), ty: Ty::Int }).collect();
+        let mut params: Vec<Var> = vec![];
+        for _ in 0..n {
+            // a parameter may shadow a captured integer variable (never another parameter)
+            let mut name = self.fresh_or_shadow(cx, "p");
+            if params.iter().any(|q: &Var| q.name == name) {
+                name = self.fresh("p");
+            }
+            params.push(Var { name, ty: Ty::Int });
+        }
         let mut inner = Ctx {
             scopes: vec![params.iter().rev().cloned().collect()],
             captured: cx.visible(),
@@ -492,7 +515,7 @@ impl<'a> Gen<'a> {
             }
             11 | 12 if depth > 0 => {
                 // repeat: the body is a new scope per iteration
-                let i = if self.w(7) { self.fresh("i") } else { String::new() };
+                let i = if self.w(7) { self.fresh_or_shadow(cx, "i") } else { String::new() };
                 let n = if self.w(8) { int(self.rng.below(4) as i64) } else { self.expr(cx, Ty::Int, 0) };
                 let n = if let "ScalarInt" = n.k { n } else { card("Sub", vec![int(2), card("Sub", vec![int(2), int(self.rng.below(3) as i64)])]) };
                 cx.scopes.push(vec![]);
@@ -536,7 +559,7 @@ impl<'a> Gen<'a> {
                     card("CreateTable", vec![])
                 };
                 let (i, k, v) = (
-                    if self.w(6) { self.fresh("i") } else { String::new() },
+                    if self.w(6) { self.fresh_or_shadow(cx, "i") } else { String::new() },
                     if self.w(6) { self.fresh("k") } else { String::new() },
                     if self.w(6) { self.fresh("e") } else { String::new() },
                 );
@@ -623,6 +646,13 @@ impl<'a> Gen<'a> {
                 vec![setg(&format!("g{}", self.rng.below(5)), read(&format!("{t}.{}", self.rng.pick(&["a", "b", "key"]))))]
             }
             24 if self.prof.stdlib > 0 => self.std_stmt(cx, ed),
+            25 if depth > 0 && self.w(3) && (!cx.in_fn || (self.prof.host == 0 && self.prof.stdlib == 0)) => {
+                // Abort ends the whole program (successfully), wherever it is executed -- except below a host function that
+                // re-entered the interpreter (Appendix B: there it only ends the callee), so it is generated in functions and
+                // closures only for profiles without re-entering natives and library callbacks
+                let cond = self.expr_top(cx, Ty::Int, 1);
+                vec![card("IfTrue", vec![card("Less", vec![int(3), cond]), card("Abort", vec![])])]
+            }
             _ => {
                 let t = self.any_ty();
                 vec![setg(&format!("g{}", self.rng.below(5)), self.expr_top(cx, t, ed))]
@@ -632,11 +662,13 @@ impl<'a> Gen<'a> {
 
     /// g := std.<fn>(callback, table)
     fn std_stmt(&mut self, cx: &mut Ctx, d: usize) -> Vec<C> {
-        let n = self.rng.below(5);
-        let items: Vec<C> = (0..n).map(|_| int(self.rng.below(6) as i64)).collect();
+        // mostly small tables; sometimes long ones with many tied keys (sort stability, min/max tie-breaking)
+        let big = self.w(2);
+        let n = if big { 21 + self.rng.below(28) } else { self.rng.below(5) };
+        let items: Vec<C> = (0..n).map(|_| int(self.rng.below(if big { 40 } else { 6 }) as i64)).collect();
         let tabs = cx.of_ty(Ty::Tab);
         let mut pre = vec![];
-        let t = if !tabs.is_empty() && self.w(4) { read(&self.rng.pick(&tabs).name.clone()) } else if !self.prof.safe_arrays { card("Array", items) } else {
+        let t = if !big && !tabs.is_empty() && self.w(4) { read(&self.rng.pick(&tabs).name.clone()) } else if !self.prof.safe_arrays { card("Array", items) } else {
             // build the table in a global first (a statement-level Array with an empty operand stack)
             let h = format!("h{}", self.rng.below(3));
             if cx.cond_depth == 0 {
@@ -649,8 +681,12 @@ impl<'a> Gen<'a> {
             }
             read(&h)
         };
-        let f = *self.rng.pick(&["std.filter", "std.map", "std.any", "std.min", "std.max", "std.sorted", "std.to_array",
-                                 "std.min_by_key", "std.max_by_key", "std.sorted_by_key"]);
+        let f = if big {
+            *self.rng.pick(&["std.sorted_by_key", "std.sorted_by_key", "std.sorted", "std.min_by_key", "std.max_by_key"])
+        } else {
+            *self.rng.pick(&["std.filter", "std.map", "std.any", "std.min", "std.max", "std.sorted", "std.to_array",
+                             "std.min_by_key", "std.max_by_key", "std.sorted_by_key"])
+        };
         let g = format!("g{}", self.rng.below(5));
         let cb3 = |this: &mut Self, cx: &Ctx| -> C {
             // callbacks of filter/map/any receive (key, value, index) bound by the reversed convention
@@ -665,10 +701,12 @@ impl<'a> Gen<'a> {
         };
         let keyfn = |this: &mut Self| -> C {
             let (k, v) = (this.fresh("k"), this.fresh("e"));
-            let body = match this.rng.below(3) {
+            let body = match this.rng.below(if big { 5 } else { 3 }) {
                 0 => read(&v),
                 1 => card("Sub", vec![int(0), read(&v)]),
-                _ => card("Mul", vec![read(&v), int(0)]),
+                2 => card("Mul", vec![read(&v), int(0)]),
+                3 => card("Div", vec![read(&v), int(16)]),
+                _ => card("Less", vec![read(&v), int(20)]),
             };
             closure(&[&k, &v], vec![card("Return", vec![body])])
         };
